@@ -153,3 +153,49 @@ def rotation_set_twice(case, check):
 
 def rotation_after_last_value_edit(case, check):
     return rotation_trigger(case, check, "last_value")
+
+
+# ---------------------------------------------------------------- '&' directly after a cell-block value that is moved
+_KEYRE = {"u": r"(?<![a-z:])\*?u", "vol": r"(?<![a-z])vol", "fill": r"(?<![a-z])\*?fill", "lat": r"(?<![a-z])lat"}
+
+
+def amp_after_moved_value(case, check):
+    """feature: the program moves the per-cell data K (u, vol, fill, lat) to the data block
+    (print_in_data_block[K] = True) and a cell card spells 'K=<value> &' with the '&' at the end of the line: the
+    '&' stays in the padding of the value and is written into the generated data-block card ('U 2J 2 &'), which then
+    swallows the card after it.  Ablation: the same file without these '&' (the continuation lines are indented)."""
+    c = case["case"]
+    prog = case.get("prog", [])
+    keys = {e.get("key") for e in prog if e.get("kind") == "placement" and e.get("data_block")} & set(_KEYRE)
+    if not keys:
+        return False
+    W = c.get("width", 80)
+    blank_seen = 0
+    hit = False
+    out = []
+    lines = c["text"].split("\n")
+    start = 0
+    if lines and lines[0].lower().startswith("message:"):
+        while start < len(lines) and lines[start].strip():
+            start += 1
+        start += 1
+    for i, l in enumerate(lines):
+        x = l.rstrip("\r").expandtabs(8)[:W]
+        if i > start and not x.strip():
+            blank_seen += 1
+        if blank_seen or i <= start:
+            out.append(l)
+            continue
+        data = _comment_free(x)
+        m = None
+        for k in keys:
+            m = m or re.search(_KEYRE[k] + r"\s*=?\s*[-+.\deE]+\s*&\s*$", data, re.I)
+        if m and "$" not in x:
+            cr = "\r" if l.endswith("\r") else ""
+            out.append(data.rstrip()[:-1].rstrip() + cr)
+            hit = True
+        else:
+            out.append(l)
+    if not hit:
+        return False
+    return check(dict(c, text="\n".join(out)), prog) is None
